@@ -147,3 +147,5 @@ func init() {
 	prop("C07", "C13-R8")
 	prop("C17", "C13-R8")
 }
+
+func init() { prop("C04", "C07-R1") }
